@@ -2,9 +2,11 @@ use c18::tree::{Carry, Case, CtxtVia, Form, Header, Item, Node, PushVia, RunHow,
 use vcore::proptest::prelude::*;
 use vcore::Level;
 
-const RULE: &str = "a case is a program as data: a span tree (<=20 span nodes, depth <=5; forms: attribute on sync/async fn, new_span! with Frame::call / enter / in_future, guard: parameter completed with complete() or complete_with(custom completion), Result-returning ok_lvl / err_lvl / err: fns sync and async leaving by Ok, return Err or an early ?, and four own-frame hand-off forms where the frame returned by new_span! — for sampled and for unsampled (rejected) spans — is moved to a fresh thread and entered there by call / in_fn / enter, or polled through in_future alternately on fresh threads and the awaiting thread) with emit! events, Traceparent::current()/SpanCtxt::current checks and yields, plus pushed incoming headers (unparsable -> documented fallback, valid sampled/unsampled of another trace, same trace id as the active one, all-zero, half-zero; through Traceparent::push, push(traceparent, tracestate) or header text), next-service hops (format current header, parse and push it on a fresh thread, run child spans there), same-service thread hops (carrying nothing / Frame::current(rt.ctxt()) / Traceparent::current().push() / both; by call or in_future) non-span frames (Frame::current / Frame::push with a plain property) captured at one point — typically at top level before any trace — and entered later somewhere else (inside spans, header frames, other threads) by call / enter guard / in_future / on a fresh thread; planned panics (quiet resume_unwind) that unwind through any of these scopes up to a catch_unwind (explicit Catch item, in async code around every poll; or the top of the hop / service / hand-off thread) after which the same thread is used on; and joins of async tasks with a generated poll schedule (optionally each task wrapped in Frame::current(rt.ctxt()).in_future, and then optionally with polls migrating to fresh threads); the sampler is a generated decision table indexed by call number that records its argument, or no sampler at all is installed (TraceparentFilter::new(), the plain setup(): every locally started trace is sampled and unsampled traces only arrive through incoming headers); the filter is TraceparentFilter optionally AND in_sampled_trace_filter(b). Run on a private runtime on a fresh thread and judged against a model of the active traceparent. Non-trivial = at least two root spans whose sampler decisions differ, or a pushed incoming header, or a (thread or service) hop.";
+const RULE: &str = "a case is a program as data: a span tree (<=20 span nodes, depth <=5; forms: attribute on sync/async fn, new_span! with Frame::call / enter / in_future, guard: parameter completed with complete() or complete_with(custom completion), Result-returning ok_lvl / err_lvl / err: fns sync and async leaving by Ok, return Err or an early ?, and four own-frame hand-off forms where the frame returned by new_span! — for sampled and for unsampled (rejected) spans — is moved to a fresh thread and entered there by call / in_fn / enter, or polled through in_future alternately on fresh threads and the awaiting thread) with emit! events, Traceparent::current()/SpanCtxt::current checks and yields, plus pushed incoming headers (unparsable -> documented fallback, valid sampled/unsampled of another trace, same trace id as the active one, all-zero, half-zero; through Traceparent::push, push(traceparent, tracestate) or header text), next-service hops (format current header, parse and push it on a fresh thread, run child spans there), same-service thread hops (carrying nothing / Frame::current(rt.ctxt()) / Traceparent::current().push() / both; by call or in_future) non-span frames (Frame::current / Frame::push with a plain property) captured at one point — typically at top level before any trace — and entered later somewhere else (inside spans, header frames, other threads) by call / enter guard / in_future / on a fresh thread; planned panics (quiet resume_unwind) that unwind through any of these scopes up to a catch_unwind (explicit Catch item, in async code around every poll; or the top of the hop / service / hand-off thread) after which the same thread is used on; and joins of async tasks with a generated poll schedule (optionally each task wrapped in Frame::current(rt.ctxt()).in_future, and then optionally with polls migrating to fresh threads); the sampler is a generated decision table indexed by call number that records its argument, or no sampler at all is installed (TraceparentFilter::new(), the plain setup(): every locally started trace is sampled and unsampled traces only arrive through incoming headers); the filter is TraceparentFilter optionally AND in_sampled_trace_filter(b); HOW the TraceparentCtxt reaches Runtime<.., C, ..> is generated too: as itself, as &T, Box<T>, Arc<T>, Option<T> (Some), AssertInternal<T>, or erased as Box<dyn ErasedCtxt + Send + Sync> / Arc<dyn ..> / Option<&dyn ..> (the ambient runtime's ctxt type) around a nest of 0-3 further carriers (Box, Arc, Option, AssertInternal, Arc<dyn>; each level erased again), optionally with the ctxt inside TraceparentCtxt erased and wrapped the same way — every public carrier impl of Ctxt in emit_core; non-span frames may also be Frame::root(ctxt, plain property). Run on a private runtime on a fresh thread and judged against a model of the active traceparent. Non-trivial = at least two root spans whose sampler decisions differ, or a pushed incoming header, or a (thread or service) hop.";
 
-const ASSUMPTIONS: [&str; 8] = [
+const ASSUMPTIONS: [&str; 10] = [
+    "the statement is about the trace-context runtime whatever Rust type carries the TraceparentCtxt into it: every carrier emit_core implements Ctxt for (&C, Box<C>, Arc<C>, Option<C>, dyn ErasedCtxt, AssertInternal<C>) is judged by the unchanged oracle; when a program fails behind a carrier but passes on the concrete ctxt, the failure is reported as ctxt-carrier-not-transparent/<carrier> for every carrier in the stack that demonstrably (a recording ctxt behind it) does not hand on each Ctxt method as the same method — that probe only NAMES the failure, it never creates one",
+    "a frame made with Frame::root(ctxt, plain property) inside a trace, or entered inside one, is not covered by the statement: nothing inside it is judged (don't-care), what is visible after it is left is; made and entered with no trace around, nothing is active inside it",
     "ids of sampled spans are read from their own span events; the order of sampler calls is read from the log positions of span starts (never predicted); ids inside unsampled traces are learned from the first observation inside the span and must then stay stable and be restored",
     "a root span is one that starts while no VALID traceparent (trace id and span id both present) is active; an all-zero pushed header counts as none (W3C; crate test traceparent_ctxt_ignores_invalid_parent)",
     "with in_sampled_trace_filter(b) the start of a NEW trace is itself an event outside any trace, so the conjunction answers b for it (rustdoc of in_sampled_trace_filter): the sampler is still consulted exactly once (it is the left operand) and the trace is sampled iff decision AND b",
@@ -228,6 +230,26 @@ fn main() {
         s.require("no-sampler-unsampled-incoming-with-spans", 100);
         s.require("frame-current-hop-with-spans", 100);
         s.require("async-join-polls-migrate-threads", 100);
+        // how the ctxt reaches the runtime: every carrier, and through every carrier the span starts that
+        // use `open_disabled` (rejected root), `open_push` (sampled) and a root frame (`open_root`)
+        for via in ["Concrete", "Ref", "Boxed", "Shared", "Optional", "AssertInternal", "BoxDyn", "ArcDyn", "Ambient"] {
+            s.require(&format!("ctxt-via:{via}"), 100);
+            // (behind AssertInternal a rejected root is the listed finding: the case ends there, unclassified)
+            if via != "AssertInternal" {
+                s.require(&format!("ctxt-via:{via}/rejected-root-span"), 50);
+            }
+        }
+        for k in ["concrete", "ref", "box", "arc", "option", "erased"] {
+            s.require(&format!("ctxt-carrier:{k}/rejected-root-span"), 100);
+            s.require(&format!("ctxt-carrier:{k}/rejected-root-with-descendants"), 60);
+            s.require(&format!("ctxt-carrier:{k}/sampled-root-span"), 100);
+            s.require(&format!("ctxt-carrier:{k}/root-frame"), 50);
+        }
+        s.require("ctxt-carrier:assert-internal/sampled-root-span", 60);
+        s.require("ctxt-carrier:assert-internal/root-frame", 15);
+        s.require("ctxt-nest:2+", 200);
+        s.require("ctxt-inner:wrapped", 100);
+        s.require("root-frame:entered", 200);
         s.gen("programs", s.n(20_000, 600_000), case, c18::check_case);
     })
 }
